@@ -190,7 +190,9 @@ ServerCanSelect(o, sc) ==
 \* ------------------------------------------------------------ key shares (C18)
 ShareProblems(o) ==
   {<<"share-size", o.shareSeq[i].group>> : i \in {j \in DOMAIN o.shareSeq : ~IsGrease16(o.shareSeq[j].group) /\ o.shareSeq[j].n # ShareSize(o.shareSeq[j].group)}}
-  \cup {<<"share-not-in-groups", g>> : g \in o.shares \ o.groups}
+\* a share for a group supported_groups does not list is a malformed offer (RFC 8446 4.2.8); C18 does not speak about
+\* it (C09 does, for randomized specs), so it is not a share problem: it only names the reason of a peer's refusal
+ShareOutsideGroups(o) == o.shares \ o.groups
 
 \* ------------------------------------------------------------ agreement (C11)
 AgreeProblems(cs, ss, o, cekm, sekm) ==
